@@ -71,6 +71,8 @@ PrefixOk(f, o) == /\ Lock(o) => (f.lock = 1 /\ HasMem(o))
                   /\ Bit(o.opt, 3) = 1 => (f.xacq = 1 /\ Lock(o) /\ HasMem(o))
                   /\ Bit(o.opt, 4) = 1 => (f.xrel = 1 /\ HasMem(o) /\ (f.lock = 1 => Lock(o)))
 
+ZeroingIntoMemory(o) == o.z = 1 /\ Len(o.ops) > 0 /\ o.ops[1].t = "m"
+
 Admits(f, o) == ArchOk(f, o.m) /\ Shape(f, o) /\ DecoOk(f, o) /\ PrefixOk(f, o)
 Implemented(f, mode) == IF mode = 64 THEN f.i64 ELSE f.i32
 
@@ -122,6 +124,8 @@ XModeVerdict(o) ==
 NearMissVerdict(o) ==
   IF ~o.known THEN <<"U", "mnemonic-unknown-to-this-release">>
   ELSE IF ~OnlyKnownOptions(o) THEN <<"U", "option">>
+  (* the notation "xmm/m128 {kz}" does not say whether {z} goes with the memory alternative (architecturally it does not) *)
+  ELSE IF ZeroingIntoMemory(o) /\ AnyRow(o) THEN <<"U", "zeroing-masking-with-memory-destination-not-decided-by-the-database-notation">>
   ELSE IF ImplRow(o) THEN OnOffClause(o)                       \* the mutation happens to be another implemented form
   ELSE IF AnyRow(o) THEN <<"U", "matches-only-rows-not-implemented-by-the-pinned-release">>
   ELSE IF Ok(o.v) /\ Ok(o.on.e) THEN                          \* provably not an instruction, accepted by validator and encoder
